@@ -148,9 +148,17 @@ def _k0(x: tuple) -> str:
     return x[0]
 
 
+NO_MERGE = False  # focused runs: keep every path's choices (no join by intersection)
+
+
 def dedup(sts: list[Store]) -> list[Store]:
     if len(sts) < 2:
         return sts
+    if NO_MERGE:
+        seen0: dict = {}
+        for s in sts:
+            seen0.setdefault((s.key(), tuple(s.ch.items())), s)
+        return list(seen0.values())
     seen: dict = {}
     for s in sts:
         k = s.key()
@@ -169,6 +177,11 @@ def dedup(sts: list[Store]) -> list[Store]:
 def dedup_pairs(ps: list[tuple[Any, Store]]) -> list[tuple[Any, Store]]:
     if len(ps) < 2:
         return ps
+    if NO_MERGE:
+        seen0: dict = {}
+        for v, s in ps:
+            seen0.setdefault((v, s.key(), tuple(s.ch.items())), (v, s))
+        return list(seen0.values())
     seen: dict = {}
     for v, s in ps:
         k = (v, s.key())
@@ -570,6 +583,31 @@ class Interp:
             flow.brk.extend(f2.brk)
             flow.cont.extend(f2.cont)
 
+    def s_Delete(self, s, st, fr, ex, flow, nxt):
+        cur = [st]
+        for t in s.targets:
+            nx = []
+            for c in cur:
+                if isinstance(t, ast.Subscript):
+                    for cv, c2 in self.eval(t.value, c, fr, ex):
+                        for kv, c3 in self.eval(t.slice, c2, fr, ex):
+                            if isinstance(cv, Dct):
+                                if not any(k == kv for k, _ in cv.items):
+                                    ex.append((ExcInfo("KeyError", "lib", self.site(fr, s), norm(s)), c3))
+                                    continue
+                                nx.extend(self.assign(t.value, Dct(tuple((k, v) for k, v in cv.items if k != kv)), c3, fr, ex, aug=True))
+                            else:
+                                raise AnalysisError(f"unsupported del on {cv!r} at {self.site(fr, s)}")
+                elif isinstance(t, ast.Name):
+                    c2 = c.fork()
+                    c2.loc = {k: v for k, v in c2.loc.items() if k != t.id}
+                    c2._key = None
+                    nx.append(c2)
+                else:
+                    raise AnalysisError(f"unsupported del target at {self.site(fr, s)}")
+            cur = nx
+        nxt.extend(cur)
+
     def s_FunctionDef(self, s, st, fr, ex, flow, nxt):
         raise AnalysisError(f"nested function unsupported at {self.site(fr, s)}")
 
@@ -599,6 +637,23 @@ class Interp:
                     nx.extend(self.assign(te, pv, c, fr, ex))
                 cur = nx
             return cur
+        if isinstance(t, ast.Subscript):
+            out = []
+            for cv, st2 in self.eval(t.value, st, fr, ex):
+                for kv, st3 in self.eval(t.slice, st2, fr, ex):
+                    if isinstance(cv, Dct):
+                        items = dict(cv.items)
+                        items[kv] = v
+                        out.extend(self.assign(t.value, Dct(tuple(items.items())), st3, fr, ex, aug=True))
+                    elif isinstance(cv, Lst) and isinstance(kv, int) and -len(cv.items) <= kv < len(cv.items):
+                        items2 = list(cv.items)
+                        items2[kv] = v
+                        out.extend(self.assign(t.value, Lst(tuple(items2), cv.more), st3, fr, ex, aug=True))
+                    elif isinstance(cv, Sym):
+                        out.append(st3)  # store into an untracked container
+                    else:
+                        raise AnalysisError(f"unsupported subscript store into {cv!r} at {self.site(fr, t)}")
+            return out
         raise AnalysisError(f"unsupported assignment target {type(t).__name__} at {self.site(fr, t)}")
 
     def store_attr(self, ov: Any, name: str, v: Any, st: Store, fr: Frame, n: ast.AST, ex: list, aug: bool = False) -> list[Store]:
